@@ -31,7 +31,9 @@
 (* (P) invariants at the bottom.  Emit prints, for every state of every behaviour, what    *)
 (*     the real code has to return at that point (pipeline A).                             *)
 (* Batch record: POMDP instance fields + beliefs (list of weight vectors), machs (list of  *)
-(* machine names), D, DB, ghost (1 iff absorbing states keep arbitrary outgoing rows).     *)
+(* machine names), D, DB, ghost (1 iff absorbing states keep arbitrary outgoing rows),      *)
+(* optional LL (0 = beliefs at the depth bound carry no look-ahead table; used by the      *)
+(* "tiny-mass" cases whose weights are ~10^8, see LeafLA below).                            *)
 EXTENDS POMDP, Json, IOUtils
 
 Batch == JsonDeserialize(IOEnv.BATCH_FILE)
